@@ -45,7 +45,9 @@ def trees(case):
     for (b, ns, ft) in CONFIGS:
         if container is not None and b == "etree" and not ft:
             continue   # fragments: fullTree makes no difference; one etree run per namespacing
-        r, p = h5.parse(text, builder=b, namespace=ns, scripting=scripting, container=container, full_tree=ft)
+        # the root-element form is requested both ways: fullTree=False spelled out (ns on) and the keyword left out (ns off)
+        r, p = h5.parse(text, builder=b, namespace=ns, scripting=scripting, container=container,
+                        full_tree=(None if (b == "etree" and not ft and not ns) else ft))
         res[(b, ns, ft)] = obs.flat(r)
     return res
 
@@ -119,11 +121,30 @@ def _only_doctype_differs(a, b):
 def shards(tier):
     quick = tier == "quick"
     profs = ["table", "table", "formatting", "formatting", "foreign", "select", "general", "general", "raw", "head", "frameset", "ruby", "body", "table", "formatting", "general"]
-    return [{"kind": "hyp", "profile": p, "n": 2500 if quick else 40000} for p in profs]
+    out = [{"kind": "hyp", "profile": p, "n": 2500 if quick else 40000} for p in profs]
+    out += [{"kind": "grammar", "n": 3000 if quick else 60000} for _ in range(2)]
+    return out
+
+
+# long sequences over a tiny alphabet of formatting elements whose attributes are written in different orders, markers and
+# closers: backend-specific attribute containers (minidom's ordered AttrList vs a dict) meet the Noah's-ark clause, the
+# adoption agency and reconstruction only after 4+ equal elements in a row
+GRAMMAR = ["<b a=1 c=2>", "<b c=2 a=1>", "<b a=1 c=2>", "<b c=2 a=1 >", "<b a=1>", "<b>", "</b>", "<p>", "</p>", "x", "<i c=2 a=1>", "<i a=1 c=2>", "</i>",
+           "<div>", "</div>", "<table><tr><td>", "</table>", "<a href=u id=v>", "<a id=v href=u>", "</a>", "<object>", "</object>", " ", "<b A=1 C=2>", "<td>", "<caption>"]
 
 
 def run_shard(desc, seed, tier):
     acc = Acc()
+    if desc["kind"] == "grammar":
+        strat = st.tuples(st.lists(st.sampled_from(GRAMMAR), min_size=4, max_size=14).map("".join),
+                          st.sampled_from([None, None, None, "div", "td", "table"]), st.booleans())
+
+        def fn(x):
+            text, container, scripting = x
+            case = {"text": text, "container": container, "scripting": scripting}
+            acc.add(case, check_case(case))
+        drive(strat, fn, desc["n"], seed)
+        return acc
     strat = st.tuples(soup.soup_text(profile=desc["profile"], max_items=40),
                       st.one_of(st.none(), st.none(), st.sampled_from(soup.CONTEXTS)), st.booleans())
 
